@@ -242,3 +242,34 @@ Example shutdown_poll_serves_nonvacuous :
   fold_left (sdstep true) [SdArrive 9] (mksd 0 0 false) = mksd 9 0 false.
 Proof. vm_compute. split; reflexivity. Qed.
 
+
+(** 9. What a flood is made of.  The counter a frame bumps is a function of
+    its type, flags and stream id ([qualifying]); its payload length is not
+    looked at (for DATA the counter is by definition about frames without
+    content).  So more than [threshold] frames that qualify for one counter,
+    inside one window, trip it whatever their sizes - zero-length
+    CONTINUATION frames, empty SETTINGS, padding-only DATA included. *)
+Theorem flood_counts_frames_not_bytes :
+  (forall l1 l2 t f sid c1 c2, t <> FData ->
+     qualifying (mkfh l1 t f sid) c1 = qualifying (mkfh l2 t f sid) c2) /\
+  (forall k fs d, kind k ->
+     Forall (fun p => qualifying (fst p) (snd p) = Some k) fs ->
+     age d < FLOOD_WINDOW_MS -> threshold d k < U32 - 1 ->
+     nth_counter d k <= threshold d k ->
+     threshold d k < nth_counter d k + N.of_nat (length fs) ->
+     snd (run_events d (counted fs)) = true).
+Proof.
+  split; [exact qualifying_ignores_length|].
+  intros k fs d Hk Hq Ha Ht Hle Hgt. rewrite (counted_all k fs Hq).
+  eapply flood_trips_l; eauto; [apply forall_repeat|]. rewrite repeat_length. exact Hgt.
+Qed.
+
+Example flood_counts_frames_not_bytes_nonvacuous :
+  (* continuation threshold 3: a block kept open by four CONTINUATION frames of length 0 trips, three do not *)
+  let d := flood_new (cfg_new 8 8 8 8 8 3 10 1000 50 500 4096) in
+  let empty_cont := (mkfh 0 FContinuation 0 1, 0) in
+  counted [empty_cont; (mkfh 0 FPing 1 0, 8); empty_cont; (mkfh 5 FContinuation 0 1, 5)] = [10; 10; 10] /\
+  snd (run_events d (counted [empty_cont; empty_cont; empty_cont])) = false /\
+  snd (run_events d (counted [empty_cont; empty_cont; empty_cont; empty_cont])) = true /\
+  qualifying (mkfh 1 FData 8 1) 0 = Some 8 /\ qualifying (mkfh 1 FData 9 1) 0 = None /\ qualifying (mkfh 4 FData 0 1) 4 = None.
+Proof. vm_compute. repeat split; reflexivity. Qed.
